@@ -14,6 +14,7 @@ from ufl.core.operator import Operator
 from ufl.core.ufl_type import ufl_type
 from ufl.index_combination_utils import remove_indices
 from ufl.indexed import Indexed
+from ufl.permutation import compute_indices
 
 # --- Classes representing tensors of UFL expressions ---
 
@@ -527,6 +528,12 @@ def unwrap_list_tensor(lt):
             components.append(((s,), subs[s]))
     else:
         for s, sub in enumerate(subs):
-            for c, v in unwrap_list_tensor(sub):
-                components.append(((s,) + c, v))
+            if isinstance(sub, ListTensor):
+                for c, v in unwrap_list_tensor(sub):
+                    components.append(((s,) + c, v))
+            else:
+                # The constructor has simplified this sub-tensor (e.g. a row
+                # of zeros to a Zero): take its components by indexing
+                for c in compute_indices(sub.ufl_shape):
+                    components.append(((s,) + c, sub[c]))
     return components
